@@ -655,6 +655,36 @@ func c11Defaults(c *Ctx, r *Report, rule string) {
 			}
 		}
 	}
+	// ... also where the defaulting stands in a helper of the package that Provision calls after the upstreams
+	for _, ci := range callsIn(fn) {
+		g := ci.Common().StaticCallee()
+		if g == nil || g == up || g.Pkg != fn.Pkg || len(g.Blocks) == 0 {
+			continue
+		}
+		after := false
+		for _, cl := range calls {
+			if canReach(cl, ci) {
+				after = true
+			}
+		}
+		if !after {
+			continue
+		}
+		for h := range c.reachSync(g) {
+			if h.Pkg != fn.Pkg || h == up {
+				continue
+			}
+			for _, b := range h.Blocks {
+				for _, in := range b.Instrs {
+					if st, ok := in.(*ssa.Store); ok {
+						if _, sn, f, ok := fieldAddr(st.Addr); ok && strings.HasPrefix(sn, "modules/l4proxy.") && sn != "modules/l4proxy.Handler" {
+							later[sn+"."+f] = c.ipos(st)
+						}
+					}
+				}
+			}
+		}
+	}
 	r.check(len(later) >= 3, rule, fnName, "defaults applied after the upstreams", c.pos(fn.Pos()), fmt.Sprintf("%d option fields are defaulted after the upstreams are provisioned: %v", len(later), sortedKeys(later)), fmt.Sprintf("expected the defaulting of max_fails / active timeout / interval after the upstream loop, found %v", sortedKeys(later)))
 	var bad []string
 	reach := c.reach([]*ssa.Function{up})
